@@ -74,12 +74,16 @@ fn supervise(args: &[String]) -> ! {
                 continue;
             }
             // crashed: render the case (generation does not touch the code under test) and report it
-            if let Some(choices) = read_journal(&f.to_string_lossy()) {
+            let journalled: Option<Case> = rvh::drv::read_journal_case(&f.to_string_lossy()).or_else(|| {
+                let choices = read_journal(&f.to_string_lossy())?;
                 let vars = rvh::props::variants(&prop);
-                if let Some(var) = vars.iter().find(|x| x.name == vname) {
-                    let tier = if args.iter().any(|a| a == "thorough") || std::env::var("VERIF_TIER").ok().as_deref() == Some("thorough") { Tier::Thorough } else { Tier::Quick };
-                    let mut src = rvh::src::Src::new(&choices);
-                    let case = (var.gen)(&mut src, tier);
+                let var = vars.iter().find(|x| x.name == vname)?;
+                let tier = if args.iter().any(|a| a == "thorough") || std::env::var("VERIF_TIER").ok().as_deref() == Some("thorough") { Tier::Thorough } else { Tier::Quick };
+                let mut src = rvh::src::Src::new(&choices);
+                Some((var.gen)(&mut src, tier))
+            });
+            if let Some(case) = journalled {
+                {
                     let dir = format!("{}/violations/{}", vd, prop);
                     let _ = std::fs::create_dir_all(&dir);
                     let path = format!("{}/{}-crash-{:016x}.json", dir, vname, case.hash());
@@ -166,14 +170,19 @@ fn real_main() {
     if let Some(path) = jreplay {
         let fname = std::path::Path::new(&path).file_name().unwrap().to_string_lossy().to_string();
         let vname = fname.split('@').next().unwrap_or("").to_string();
-        let choices = read_journal(&path).unwrap_or_default();
         let vars = rvh::props::variants(&prop);
         let var = match vars.iter().find(|x| x.name == vname) {
             Some(v) => v,
             None => std::process::exit(2),
         };
-        let mut src = rvh::src::Src::new(&choices);
-        let case = (var.gen)(&mut src, tier);
+        let case = match rvh::drv::read_journal_case(&path) {
+            Some(c) => c,
+            None => {
+                let choices = read_journal(&path).unwrap_or_default();
+                let mut src = rvh::src::Src::new(&choices);
+                (var.gen)(&mut src, tier)
+            }
+        };
         let mut l = Local::default();
         match (var.check)(&case, &mut l) {
             Verdict::Fail(msg) => {
